@@ -2,7 +2,7 @@
 //! register files per group), scalar multiplication paths (C02), MSM (C10).
 use crate::j::*;
 use ff::{Field, PrimeField};
-use pairing::bls12_381::{FrRepr, G1, G2};
+use pairing::bls12_381::{Fq, Fq2, FrRepr, G1Affine, G2Affine, G1, G2};
 use pairing::{CurveAffine, CurveProjective, Wnaf};
 use serde_json::{json, Value};
 
@@ -28,12 +28,9 @@ pub fn scalar_repr(v: &Value) -> FrRepr {
 }
 
 /// one step of the register machine; returns the "out" value
-pub fn exec_cm<G: Grp>(r: &mut Regs<G>, op: &Value) -> Value
-where
-    G: CurveProjective<Scalar = pairing::bls12_381::Fr>,
-    G::Base: J,
-    G::Affine: CurveAffine<Projective = G, Base = G::Base, Scalar = pairing::bls12_381::Fr>,
-{
+macro_rules! exec_cm_impl {
+    ($name:ident, $G:ty, $A:ty, $B:ty) => {
+        pub fn $name(r: &mut Regs<$G>, op: &Value) -> Value {
     let f = op["fn"].as_str().unwrap();
     match f {
         "reset" => {
@@ -43,39 +40,39 @@ where
         // raw Jacobian triple into a projective register
         "load" => {
             let d = idx(op, "d");
-            r.p[d] = j_to_proj::<G>(&op["v"]);
+            r.p[d] = j_to_proj::<$G>(&op["v"]);
             proj_to_j(&r.p[d])
         }
         // raw affine record into an affine register
         "load_aff" => {
             let d = idx(op, "d");
-            r.a[d] = j_to_aff::<G>(&op["v"]);
+            r.a[d] = j_to_aff::<$G>(&op["v"]);
             aff_to_j(&r.a[d])
         }
         "zero" => {
             let d = idx(op, "d");
-            r.p[d] = G::zero();
+            r.p[d] = <$G>::zero();
             proj_to_j(&r.p[d])
         }
         "one" => {
             let d = idx(op, "d");
-            r.p[d] = G::one();
+            r.p[d] = <$G>::one();
             proj_to_j(&r.p[d])
         }
         "zero_aff" => {
             let d = idx(op, "d");
-            r.a[d] = <G::Affine as CurveAffine>::zero();
+            r.a[d] = <$A>::zero();
             aff_to_j(&r.a[d])
         }
         "one_aff" => {
             let d = idx(op, "d");
-            r.a[d] = <G::Affine as CurveAffine>::one();
+            r.a[d] = <$A>::one();
             aff_to_j(&r.a[d])
         }
         // same point, other representative: (l^2 X, l^3 Y, l Z)
         "rescale" => {
             let d = idx(op, "d");
-            let l = G::Base::from_j(&op["lam"]);
+            let l = <$B>::from_j(&op["lam"]);
             let (x, y, z) = {
                 let (x, y, z) = r.p[d].as_tuple();
                 (*x, *y, *z)
@@ -90,7 +87,7 @@ where
             ny.mul_assign(&l3);
             let mut nz = z;
             nz.mul_assign(&l);
-            r.p[d] = G::raw(nx, ny, nz);
+            r.p[d] = <$G>::raw(nx, ny, nz);
             proj_to_j(&r.p[d])
         }
         "copy" => {
@@ -159,8 +156,8 @@ where
                 .iter()
                 .map(|x| x.as_u64().unwrap() as usize)
                 .collect();
-            let mut v: Vec<G> = regs.iter().map(|i| r.p[*i]).collect();
-            G::batch_normalization(&mut v);
+            let mut v: Vec<$G> = regs.iter().map(|i| r.p[*i]).collect();
+            <$G>::batch_normalization(&mut v);
             for (k, i) in regs.iter().enumerate() {
                 r.p[*i] = v[k];
             }
@@ -181,16 +178,18 @@ where
         }
         _ => panic!("unknown cm fn {}", f),
     }
+        }
+    };
 }
+exec_cm_impl!(exec_cm_g1, G1, G1Affine, Fq);
+exec_cm_impl!(exec_cm_g2, G2, G2Affine, Fq2);
+
 
 /// all scalar-multiplication paths for one (P, k): C02
-pub fn exec_smul<G: Grp>(op: &Value) -> Value
-where
-    G: CurveProjective<Scalar = pairing::bls12_381::Fr>,
-    G::Base: J,
-    G::Affine: CurveAffine<Projective = G, Base = G::Base, Scalar = pairing::bls12_381::Fr>,
-{
-    let p: G = j_to_proj::<G>(&op["p"]);
+macro_rules! exec_smul_impl {
+    ($name:ident, $G:ty, $A:ty, $B:ty) => {
+        pub fn $name(op: &Value) -> Value {
+    let p: $G = j_to_proj::<$G>(&op["p"]);
     let pa = p.into_affine();
     let k = scalar_repr(&op["k"]);
     let mut out = serde_json::Map::new();
@@ -200,14 +199,14 @@ where
     out.insert("mul_assign".into(), proj_to_j(&q));
     out.insert("affine_mul".into(), proj_to_j(&pa.mul(k)));
     // table-driven paths with the library's own tables
-    let mut pre3 = vec![<G::Affine as CurveAffine>::zero(); 3];
+    let mut pre3 = vec![<$A>::zero(); 3];
     pa.precomp_3(&mut pre3);
     out.insert("mul_precomp_3".into(), proj_to_j(&pa.mul_precomp_3(k, &pre3)));
     out.insert(
         "pre3".into(),
         Value::Array(pre3.iter().map(|x| aff_to_j(x)).collect()),
     );
-    let mut pre256 = vec![<G::Affine as CurveAffine>::zero(); 256];
+    let mut pre256 = vec![<$A>::zero(); 256];
     pa.precomp_256(&mut pre256);
     out.insert(
         "mul_precomp_256".into(),
@@ -235,7 +234,7 @@ where
                 let mut digits = vec![];
                 pairing::verif_wnaf::wnaf_table(&mut table, p, w);
                 pairing::verif_wnaf::wnaf_form(&mut digits, k, w);
-                let r: G = pairing::verif_wnaf::wnaf_exp(&table, &digits);
+                let r: $G = pairing::verif_wnaf::wnaf_exp(&table, &digits);
                 let mut e = serde_json::Map::new();
                 e.insert("w".into(), json!(w));
                 e.insert("r".into(), proj_to_j(&r));
@@ -250,18 +249,23 @@ where
             out.insert("wnaf".into(), json!([]));
         }
         let mut ctx = Wnaf::new();
-        let r1: G = ctx.base(p, 1).scalar(k);
+        let r1: $G = ctx.base(p, 1).scalar(k);
         out.insert("wnaf_base_scalar".into(), proj_to_j(&r1));
         let mut ctx2 = Wnaf::new();
-        let r2: G = ctx2.scalar(k).base(p);
+        let r2: $G = ctx2.scalar(k).base(p);
         out.insert("wnaf_scalar_base".into(), proj_to_j(&r2));
         out.insert(
             "rec_scalar".into(),
-            json!(G::recommended_wnaf_for_scalar(k)),
+            json!(<$G>::recommended_wnaf_for_scalar(k)),
         );
     }
     Value::Object(out)
+        }
+    };
 }
+exec_smul_impl!(exec_smul_g1, G1, G1Affine, Fq);
+exec_smul_impl!(exec_smul_g2, G2, G2Affine, Fq2);
+
 
 pub fn scalars_of(v: &Value) -> Vec<[u64; 4]> {
     v.as_array()
@@ -275,17 +279,14 @@ pub fn scalars_of(v: &Value) -> Vec<[u64; 4]> {
 }
 
 /// multi-scalar multiplication: C10
-pub fn exec_msm<G: Grp>(op: &Value) -> Value
-where
-    G: CurveProjective<Scalar = pairing::bls12_381::Fr>,
-    G::Base: J,
-    G::Affine: CurveAffine<Projective = G, Base = G::Base, Scalar = pairing::bls12_381::Fr>,
-{
-    let pts: Vec<G::Affine> = op["points"]
+macro_rules! exec_msm_impl {
+    ($name:ident, $G:ty, $A:ty, $B:ty) => {
+        pub fn $name(op: &Value) -> Value {
+    let pts: Vec<$A> = op["points"]
         .as_array()
         .unwrap()
         .iter()
-        .map(|p| j_to_aff::<G>(p))
+        .map(|p| j_to_aff::<$G>(p))
         .collect();
     let sc = scalars_of(&op["scalars"]);
     let scr: Vec<&[u64; 4]> = sc.iter().collect();
@@ -295,30 +296,30 @@ where
         "default" => {
             out.insert(
                 "r".into(),
-                proj_to_j(&<G::Affine as CurveAffine>::sum_of_products(&pts, &scr)),
+                proj_to_j(&<$A>::sum_of_products(&pts, &scr)),
             );
             out.insert(
                 "window".into(),
-                json!(<G::Affine as CurveAffine>::find_pippinger_window(n)),
+                json!(<$A>::find_pippinger_window(n)),
             );
         }
         "pippenger" => {
             let w = op["window"].as_u64().unwrap() as usize;
             out.insert(
                 "r".into(),
-                proj_to_j(&<G::Affine as CurveAffine>::sum_of_products_pippinger(
+                proj_to_j(&<$A>::sum_of_products_pippinger(
                     &pts, &scr, w,
                 )),
             );
         }
         "precomp" => {
-            let mut pre = vec![<G::Affine as CurveAffine>::zero(); 256 * pts.len()];
+            let mut pre = vec![<$A>::zero(); 256 * pts.len()];
             for i in 0..pts.len() {
                 pts[i].precomp_256(&mut pre[i * 256..(i + 1) * 256]);
             }
             out.insert(
                 "r".into(),
-                proj_to_j(&<G::Affine as CurveAffine>::sum_of_products_precomp_256(
+                proj_to_j(&<$A>::sum_of_products_precomp_256(
                     &pts, &scr, &pre,
                 )),
             );
@@ -326,19 +327,21 @@ where
         f => panic!("unknown msm fn {}", f),
     }
     Value::Object(out)
+        }
+    };
 }
+exec_msm_impl!(exec_msm_g1, G1, G1Affine, Fq);
+exec_msm_impl!(exec_msm_g2, G2, G2Affine, Fq2);
+
 
 /// MSM over a table of small multiples of one base point (large inputs): C10
-pub fn exec_msml<G: Grp>(op: &Value) -> Value
-where
-    G: CurveProjective<Scalar = pairing::bls12_381::Fr>,
-    G::Base: J,
-    G::Affine: CurveAffine<Projective = G, Base = G::Base, Scalar = pairing::bls12_381::Fr>,
-{
-    let b: G::Affine = j_to_aff::<G>(&op["base"]);
+macro_rules! exec_msml_impl {
+    ($name:ident, $G:ty, $A:ty, $B:ty) => {
+        pub fn $name(op: &Value) -> Value {
+    let b: $A = j_to_aff::<$G>(&op["base"]);
     // table[j] = [j - 8] B for j = 0..16 (input preparation; certified by the specification)
-    let mut table: Vec<G::Affine> = vec![<G::Affine as CurveAffine>::zero(); 17];
-    let mut acc = G::zero();
+    let mut table: Vec<$A> = vec![<$A>::zero(); 17];
+    let mut acc = <$G>::zero();
     for j in 1..=8 {
         acc.add_assign_mixed(&b);
         table[8 + j] = acc.into_affine();
@@ -346,7 +349,7 @@ where
         n.negate();
         table[8 - j] = n.into_affine();
     }
-    let pts: Vec<G::Affine> = op["a"]
+    let pts: Vec<$A> = op["a"]
         .as_array()
         .unwrap()
         .iter()
@@ -364,30 +367,30 @@ where
         "default" => {
             out.insert(
                 "r".into(),
-                proj_to_j(&<G::Affine as CurveAffine>::sum_of_products(&pts, &scr)),
+                proj_to_j(&<$A>::sum_of_products(&pts, &scr)),
             );
             out.insert(
                 "window".into(),
-                json!(<G::Affine as CurveAffine>::find_pippinger_window(n)),
+                json!(<$A>::find_pippinger_window(n)),
             );
         }
         "pippenger" => {
             let w = op["window"].as_u64().unwrap() as usize;
             out.insert(
                 "r".into(),
-                proj_to_j(&<G::Affine as CurveAffine>::sum_of_products_pippinger(
+                proj_to_j(&<$A>::sum_of_products_pippinger(
                     &pts, &scr, w,
                 )),
             );
         }
         "precomp" => {
-            let mut pre = vec![<G::Affine as CurveAffine>::zero(); 256 * pts.len()];
+            let mut pre = vec![<$A>::zero(); 256 * pts.len()];
             for i in 0..pts.len() {
                 pts[i].precomp_256(&mut pre[i * 256..(i + 1) * 256]);
             }
             out.insert(
                 "r".into(),
-                proj_to_j(&<G::Affine as CurveAffine>::sum_of_products_precomp_256(
+                proj_to_j(&<$A>::sum_of_products_precomp_256(
                     &pts, &scr, &pre,
                 )),
             );
@@ -395,7 +398,12 @@ where
         f => panic!("unknown msml fn {}", f),
     }
     Value::Object(out)
+        }
+    };
 }
+exec_msml_impl!(exec_msml_g1, G1, G1Affine, Fq);
+exec_msml_impl!(exec_msml_g2, G2, G2Affine, Fq2);
+
 
 pub struct CurveState {
     pub g1: Regs<G1>,
